@@ -110,12 +110,16 @@ def gen_case(rng: random.Random, tier: str, bias: str = ''):
     early = rng.choice([0.0, 0.02, 0.05, 0.1]) if bias != 'abandon' else rng.choice([0.03, 0.08, 0.15])
     ch = rng.choice([('random', early), ('random', early), ('sticky', 0.2, early), ('sticky', 0.05, early),
                      ('pct', 2, 600, early), ('pct', 3, 600, early)])
-    return dict(kind=rng.choice(['sync', 'sync', 'async']), cap=cap, nworkers=nworkers, callers=callers, nreq=r,
+    case = dict(kind=rng.choice(['sync', 'sync', 'async']), cap=cap, nworkers=nworkers, callers=callers, nreq=r,
                 followups=1 if small else rng.choice([1, 2]),
                 # leave the server right after the callers have returned (abandoned requests may still be under
                 # way: nothing waits for them) and enter the SAME object again: every slot must be free again
                 exit_busy=rng.random() < (0.35 if bias == 'abandon' else 0.15),
                 chooser=list(ch), seed=rng.randrange(1 << 30))
+    # (AsyncServer) in half of the cases a pending loop timer may come due while callbacks are already queued: a
+    # time-out racing with the notification that is on its way (cooploop.CoopSelector.select)
+    case['poll_timers'] = case['kind'] == 'async' and case['seed'] % 2 == 0
+    return case
 
 
 def corpus():
@@ -136,6 +140,16 @@ def corpus():
                             callers=[dict(kind='stream', items=items, rexc=True, stop_after=1, stop_mode=mode)]))
             out.append(dict(kind=kind, cap=2, nworkers=2, nreq=10, followups=1, exit_busy=False, chooser=['sticky', 0.2, 0.0], seed=8,
                             callers=[dict(kind='stream', items=items, rexc=False, stop_after=2, stop_mode=mode)]))
+    # a caller gives up waiting for room just as the notification of a freed slot reaches it, while another caller
+    # (no backpressure, unbounded deadline) waits as well: the wake-up must not be lost on the one that leaves (F44;
+    # schedules on which the pinned code starved request 2)
+    for kind, picks in (('sync', [(0, ['sticky', 0.2, 0.3]), (40, ['random', 0.1]), (46, ['random', 0.1]), (49, ['random', 0.1])]),
+                        ('async', [(2, ['random', 0.1]), (3, ['random', 0.1]), (19, ['sticky', 0.2, 0.3]), (37, ['random', 0.3])])):
+        for seed, ch in picks:
+            out.append(dict(kind=kind, cap=1, nworkers=1, nreq=3, followups=1, exit_busy=False, chooser=ch, seed=seed, poll_timers=True,
+                            callers=[dict(kind='call', reqs=[dict(r=0, delay=0, dur=3, fail=False, timeout=F, bp=False)]),
+                                     dict(kind='call', reqs=[dict(r=1, delay=1, dur=0, fail=False, timeout=0.5, bp=False)]),
+                                     dict(kind='call', reqs=[dict(r=2, delay=1, dur=0, fail=False, timeout=F, bp=False)])]))
     return out
 
 
@@ -177,6 +191,7 @@ def run_case(case):
         import asyncio
         import cooploop
         cooploop.install()
+        detsched.SCHED.poll_timers = bool(case.get('poll_timers'))
         base_threads = {ts.tid for ts in detsched.SCHED.order if not ts.done}
         box = {}
 
@@ -196,7 +211,7 @@ def run_case(case):
             detsched.SCHED.on_step.append(sample)
 
             async def do_call(r, dur, fail, timeout, bp):
-                t0 = loop.time()
+                t0 = detsched.my_timed_wait()   # time the loop thread spent blocked in its selector (not: being slow while runnable)
                 log(('call', r, int(bp), 0 if timeout >= FOREVER else 1))
                 try:
                     y = await srv.call(_pl(r, dur, fail), timeout=timeout, backpressure=bp)
@@ -211,7 +226,7 @@ def run_case(case):
                     out = ('cancelled',)
                 except BaseException as e:  # noqa
                     out = ('other', repr(e))
-                outcomes[r] = (out, loop.time() - t0, timeout, bp)
+                outcomes[r] = (out, detsched.my_timed_wait() - t0, timeout, bp)
                 if out != ('cancelled',):
                     log(('outcome', r) + out)
 
@@ -510,11 +525,10 @@ def run_case(case):
             # A request WITHOUT backpressure and with an unbounded deadline must get in eventually:
             # every freed slot is announced, and under the scheduler's condition variable a
             # notification is never lost to a simultaneous time-out.
-            if bp is False and timeout >= FOREVER and not (cancelled_plan and case['kind'] == 'async'):
-                # (not judged when a calling TASK is cancelled in the case: cancelling a task that has just been
-                # notified loses the wake-up inside asyncio.Condition.wait of Python < 3.12.2 / 3.13 (CPython
-                # gh-112202) - a defect of the interpreter's library, reached through an operation that is outside
-                # the quantifier of C06/C07; seen once: cap 1, call task cancelled after 8 loop iterations)
+            if bp is False and timeout >= FOREVER:
+                # (also when a calling TASK is cancelled in the case: asyncio.Condition.wait of Python < 3.12.2 loses
+                # the wake-up of a task that is cancelled right after having been notified (CPython gh-112202); since
+                # the repair of F44 a caller that leaves its wait for room passes the wake-up on, whatever made it leave)
                 for pr in ('C06', 'C07'):
                     mon.append(dict(prop=pr, rule='starved', detail=f'request {r} (no backpressure, unbounded deadline) was rejected after waiting for room although slots were freed'))
         else:
@@ -543,8 +557,6 @@ def run_case(case):
             else:
                 exp = exp[:spec['stop_after']]
                 expend = 'closed'
-        if cancelled_plan and case['kind'] == 'async' and isinstance(endk, tuple) and 'ServerBacklogFull' in str(endk):
-            continue        # starved through the lost wake-up described above
         if got != exp or endk != expend:
             mon.append(dict(prop='C02', rule='stream-output', detail=f'got {got} end {endk}; expected {exp} end {expend}'))
     for r, cnt in st['calls'].items():
